@@ -157,12 +157,18 @@ def _work(args):
     if nsplit is not None and len(cand) > nsplit:
         cand = r.sample(cand, nsplit)
     out["split"] = [srcline.trace_event(x) for x in cand]
-    for vi in range(nvar):
-        fvec = fvecs[vi % len(fvecs)]
+    plan = [fvecs[vi % len(fvecs)] for vi in range(nvar)]
+    out["constructs"] = srcline.has_constructs(recs)
+    if out["constructs"]:
+        # sources with body-collecting / paired constructs get the two wraps systematically
+        plan.append({"kind": "file", "wrap": "macro", "blanklines": False, "crlf": "lf", "forced": True})
+        plan.append({"kind": "file", "wrap": "include", "blanklines": False, "crlf": "lf", "forced": True})
+    for vi, fvec in enumerate(plan):
         items, stats = srcline.rewrite_file(data, recs, fvec, lvecs, r)
         main, extra = _files_for(name, items, fvec)
         want_tr = hooks and vi == 0 and npairs > 0
         v = _assemble_variant(b, t, main, extra, events="file,stmt,split" if want_tr else None)
+        out.setdefault("wraps", []).extend(stats.pop("region_ops", []))
         rec = {"fvec": fvec, "stats": stats, "rc": v["rc"], "timeout": v["timeout"], "equal": v["img"] == ori,
                "msg": v["msg"], "nontrivial": stats["rewritten"] > 0 or stats["regions"] > 0 or
                fvec["wrap"] != "none" or fvec["crlf"] != "lf" or stats["blank_added"] > 0}
@@ -349,7 +355,7 @@ def main(tier):
             names.append(res["test"])
         if res["pairs"]:
             pair_ev.append(res["pairs"])
-    rep.traces(len(results) * nvar)
+    rep.traces(sum(len(x["variants"]) for x in results))
     rep.part("replay", tests=len(results), variants=nvar, lines_rewritten=nrew,
              lines_unshaped=sum(v["stats"]["unshaped"] for x in results for v in x["variants"]),
              lines_untouched=sum(v["stats"]["untouched"] for x in results for v in x["variants"]),
@@ -358,6 +364,50 @@ def main(tier):
     for res in results[:2]:
         v = res["variants"][0]
         rep.sample({"test": res["test"], "file_vector": v["fvec"], "stats": v["stats"], "equal_to_ori": v["equal"]})
+    # (M)+(G) body collector: wrap precondition and construct trees ---------------------------------------
+    with Phase("TLC BodyCollect_MC"):
+        bc = tlc.must(tlc.run("BodyCollect_MC", "BodyCollect_MC.cfg" if quick else "BodyCollect_MC6.cfg", workers=min(NCPU, 8),
+                              timeout=1500, mem="8g"), "BodyCollect_MC")
+    if bc.violation:
+        raise CheckError("BodyCollect_MC: %s" % bc.violation[:900])
+    rep.model("BodyCollect_MC", bc)
+    trees = [v for (tag, v) in bc.printed if tag == "OUT" and v.get("kind") == "tree"]
+    tjobs = []
+    for tv in trees:
+        body = "\n".join(srcline.render_tree(tv["tree"])) + "\n"
+        tjobs.append({"sources": {"a.asm": "\tcpu\tz80\n" + body}, "opts": ["-q"]})
+        tjobs.append({"sources": {"a.asm": "\tcpu\tz80\nvwrap\tmacro\t{GLOBALSYMBOLS}\n" + body + "\tendm\n\tvwrap\n"}, "opts": ["-q"]})
+        tjobs.append({"sources": {"a.asm": "\tcpu\tz80\n\tinclude\t\"b.inc\"\n", "b.inc": body}, "opts": ["-q"]})
+    with Phase("construct trees: %d programs plain / macro-wrapped / include-wrapped" % len(trees)):
+        tres = aslrun.assemble_many(bld, tjobs)
+    for ti, tv in enumerate(trees):
+        for k, form in enumerate(("plain", "macro-wrapped", "include-wrapped")):
+            res = tres[3 * ti + k]
+            rep.evaluated()
+            rep.distinct(repr(tjobs[3 * ti + k]["sources"]), True)
+            got = [x for rec_ in res.parsed().data_records() for x in rec_.data] if res.p is not None else None
+            if res.rc != 0 or got != tv["bytes"]:
+                rep.violation("construct program (%s) %s: rc=%s code %s, the specification's expansion is %s; %s" % (
+                    " > ".join(sorted({o for o in tv["ops"] if o in srcline.CONSTRUCT_OPS})), form, res.rc, got,
+                    tv["bytes"], (res.out + res.err)[-200:]),
+                    case={"test": "(generated construct tree)", "tree": tv["tree"], "form": form, "bytes": tv["bytes"]},
+                    files={k2: v2 for k2, v2 in tjobs[3 * ti + k]["sources"].items()},
+                    key={"kind": "tree", "deviation": "none"})
+    rep.traces(len(tjobs))
+    rep.part("construct_trees", trees=len(trees), programs=len(tjobs))
+    if trees:
+        rep.sample({"construct_tree_source": tjobs[-2]["sources"]["a.asm"], "expected_bytes": trees[-1]["bytes"]})
+    wraps = [w for res in results for w in res.get("wraps", []) if w]
+    if wraps:
+        wv = tracecheck.validate("BodyCollect_Trace", [[{"a": "WRAP", "ops": w}] for w in wraps], timeout=900)
+        rep.cov["states"] += wv.states
+        rep.cov["transitions"] += wv.generated
+        rep.part("BodyCollect_Trace", wrapped_regions=len(wraps), accepted=wv.accepted,
+                 regions_with_constructs=sum(1 for w in wraps if any(o in srcline.CONSTRUCT_OPS for o in w)),
+                 longest=max(map(len, wraps)))
+        if not wv.accepted:
+            rep.drift("a wrapped region does not meet BodyCollect.Wrappable: %s" % wv.fail_event.get("ops")[:60])
+    rep.part("systematic_wraps", sources_with_constructs=sum(1 for x in results if x.get("constructs")))
     # (M)+(G) the line reader: continuation chains x line ends ------------------------------------------
     with Phase("TLC SourceLine_RL"):
         rl = tlc.must(tlc.run("SourceLine_RL", "SourceLine_RL.cfg" if quick else "SourceLine_RL4.cfg", workers=min(NCPU, 8),
@@ -439,6 +489,13 @@ def replay(path):
     v = json.load(open(os.path.join(path, "violation.json")))
     bld = build.get("hook")
     case = v["case"]
+    if "tree" in case:
+        srcs = {f: open(os.path.join(path, f)).read() for f in os.listdir(path) if f.endswith((".asm", ".inc"))}
+        a = aslrun.assemble(bld, srcs, opts=["-q"])
+        got = [x for rec_ in a.parsed().data_records() for x in rec_.data] if a.p is not None else None
+        log("replay: rc=%s code %s, specification expects %s\n%s" % (a.rc, got, case["bytes"], a.out + a.err))
+        log("recorded: %s" % v["what"])
+        return 0
     if "chains" in case:
         a = aslrun.assemble(bld, {"a.asm": open(os.path.join(path, "a.asm"), "rb").read()}, opts=["-q"])
         b = aslrun.assemble(bld, {"a.asm": open(os.path.join(path, "a_lf.asm"), "rb").read()}, opts=["-q"])
